@@ -726,3 +726,166 @@ Proof.
   assert (Z.to_nat (snd (fst gen_cont_exp_growth)) = 1%nat) as -> by (vm_compute; reflexivity).
   unfold growth. split; [reflexivity|]. apply Nat.le_max_r.
 Qed.
+
+(* ---------------------------------------------------------------- end to end: answers in terms of the history *)
+Lemma In_aget {V : Type} (m : list (Z * V)) a v : NoDup (akeys m) -> (In (a, v) m <-> aget a m = Some v).
+Proof.
+  intros Hnd. split; [|apply aget_In].
+  induction m as [|[k w] t IH]; intros Hin; [destruct Hin|].
+  simpl in Hnd. inversion Hnd as [|? ? Hk Hnd']. subst. simpl.
+  destruct Hin as [Hin|Hin].
+  - inversion Hin. subst. rewrite Z.eqb_refl. reflexivity.
+  - destruct (a =? k) eqn:E.
+    + apply Z.eqb_eq in E. subst. exfalso. apply Hk. unfold akeys. apply in_map_iff. exists (k, v). auto.
+    + apply IH; assumption.
+Qed.
+
+Lemma reachable_abs c ops :
+  let s := e_final c (e_init c) ops in
+  NoDup (akeys (e_abs s)) /\ forall a p, In (a, p) (e_abs s) <-> fold_left (e_track c a) ops None = Some p.
+Proof.
+  cbn zeta. pose proof (exp_reachable_inv c ops) as Hinv.
+  assert (NoDup (akeys (e_abs (e_final c (e_init c) ops)))) as Hnd
+    by (rewrite (e_abs_keys _ Hinv); apply Hinv).
+  split; [exact Hnd|]. intros a p. rewrite (In_aget _ a p Hnd).
+  rewrite <- (getpos_abs _ a Hinv), exp_position_last_assigned. reflexivity.
+Qed.
+
+(* the radius query issued after ANY history answers exactly: the agents whose last assigned (wrapped) position
+   is within the radius, each with that distance *)
+Theorem exp_radius_end_to_end c ops q r a d :
+  let s := e_final c (e_init c) ops in
+  snd (estep c s (ERadius q r)) = snd (espec_step c (e_abs s) (ERadius q r)) /\
+  (In (a, d) (in_radius c (e_abs s) q r) <->
+   exists p, fold_left (e_track c a) ops None = Some p /\
+             d = dist2 (ec_torus c) (ec_bounds c) p q /\ 0 <= r /\ d <= r * r).
+Proof.
+  cbn zeta. split.
+  - destruct (estep_sim c _ (ERadius q r) (exp_reachable_inv c ops)) as [_ H]. rewrite H. reflexivity.
+  - rewrite radius_exact. destruct (reachable_abs c ops) as [_ Hin]. split.
+    + intros [p [H1 H2]]. exists p. split; [apply Hin; exact H1|exact H2].
+    + intros [p [H1 H2]]. exists p. split; [apply Hin; exact H1|exact H2].
+Qed.
+
+(* a k-nearest outcome accepted after ANY history: k distinct agents of the space, reported with the distance of
+   their last assigned position, none farther than an agent of the space that was left out *)
+Theorem exp_knearest_end_to_end c ops q k out :
+  let s := e_final c (e_init c) ops in
+  knn_legal (distances c (e_abs s) q) k out = true ->
+  length out = k /\ NoDup out /\
+  forall a, In a out ->
+    exists p, fold_left (e_track c a) ops None = Some p /\
+      dist_of (distances c (e_abs s) q) a = dist2 (ec_torus c) (ec_bounds c) p q /\
+      forall b pb, fold_left (e_track c b) ops None = Some pb -> ~ In b out ->
+        dist2 (ec_torus c) (ec_bounds c) p q <= dist2 (ec_torus c) (ec_bounds c) pb q.
+Proof.
+  cbn zeta. intros Hl. destruct (knn_legal_sound _ _ _ Hl) as [H1 [H2 [H3 H4]]].
+  destruct (reachable_abs c ops) as [Hnd Hin]. cbn zeta in *.
+  split; [exact H1|]. split; [exact H2|]. intros a Ha.
+  specialize (H3 a Ha). unfold akeys, distances in H3. rewrite map_map in H3. cbn [fst] in H3.
+  apply in_map_iff in H3. destruct H3 as [[a' p] [Ea Hp]]. cbn [fst] in Ea. subst a'.
+  exists p. split; [apply Hin; exact Hp|].
+  pose proof (dist_of_spec c _ q a Hnd p Hp) as Hd. split; [exact Hd|].
+  intros b pb Hb Hnb. rewrite <- Hd.
+  apply (H4 a b _ Ha); [|exact Hnb].
+  apply distances_spec. exists pb. split; [apply Hin; exact Hb|reflexivity].
+Qed.
+
+(* ---------------------------------------------------------------- every k in 1..n has a legal answer *)
+From Coq Require Import Sorted.
+
+Fixpoint dinsert (x : Z * Z) (l : list (Z * Z)) : list (Z * Z) :=
+  match l with
+  | [] => [x]
+  | y :: t => if snd x <=? snd y then x :: l else y :: dinsert x t
+  end.
+Definition dsort (l : list (Z * Z)) : list (Z * Z) := fold_right dinsert [] l.
+Definition dle (x y : Z * Z) : Prop := snd x <= snd y.
+
+Lemma dinsert_perm x l : Permutation (x :: l) (dinsert x l).
+Proof.
+  induction l as [|y t IH]; simpl; [reflexivity|].
+  destruct (snd x <=? snd y); [reflexivity|]. rewrite perm_swap. constructor. exact IH.
+Qed.
+
+Lemma dsort_perm l : Permutation l (dsort l).
+Proof.
+  induction l as [|x t IH]; simpl; [constructor|]. rewrite <- dinsert_perm. constructor. exact IH.
+Qed.
+
+Lemma dinsert_sorted x l : StronglySorted dle l -> StronglySorted dle (dinsert x l).
+Proof.
+  induction l as [|y t IH]; intros Hs; simpl.
+  - constructor; constructor.
+  - inversion Hs as [|? ? Hs' Hall]. subst.
+    destruct (snd x <=? snd y) eqn:E.
+    + apply Z.leb_le in E. constructor; [exact Hs|]. constructor; [exact E|].
+      eapply Forall_impl; [|exact Hall]. intros z Hz. unfold dle in *. lia.
+    + apply Z.leb_gt in E. constructor; [apply IH; exact Hs'|].
+      apply (Permutation_Forall (dinsert_perm x t)). constructor; [unfold dle; lia|exact Hall].
+Qed.
+
+Lemma dsort_sorted l : StronglySorted dle (dsort l).
+Proof. induction l as [|x t IH]; simpl; [constructor|]. apply dinsert_sorted. exact IH. Qed.
+
+Lemma sorted_app_le (l1 l2 : list (Z * Z)) x y :
+  StronglySorted dle (l1 ++ l2) -> In x l1 -> In y l2 -> snd x <= snd y.
+Proof.
+  induction l1 as [|z t IH]; intros Hs Hx Hy; [destruct Hx|].
+  simpl in Hs. inversion Hs as [|? ? Hs' Hall]. subst. destruct Hx as [->|Hx].
+  - rewrite Forall_forall in Hall. apply (Hall y). apply in_or_app. right. exact Hy.
+  - apply IH; assumption.
+Qed.
+
+Lemma NoDup_has_dup_false l : NoDup l -> has_dup l = false.
+Proof.
+  induction l as [|x t IH]; intros H; [reflexivity|].
+  inversion H as [|? ? Hx Hnd]. subst. simpl. apply orb_false_iff. split; [|apply IH; exact Hnd].
+  destruct (existsb (Z.eqb x) t) eqn:E; [|reflexivity].
+  exfalso. apply Hx. apply mem_In. exact E.
+Qed.
+
+Lemma NoDup_app_l {A : Type} (l1 l2 : list A) : NoDup (l1 ++ l2) -> NoDup l1.
+Proof.
+  induction l1 as [|x t IH]; intros H; [constructor|].
+  simpl in H. inversion H as [|? ? Hx Hnd]. subst. constructor; [|apply IH; exact Hnd].
+  intros Hin. apply Hx. apply in_or_app. left. exact Hin.
+Qed.
+
+(* the k entries of smallest distance (ties broken by insertion order) are a legal k-nearest outcome *)
+Theorem knn_exists (ds : list (Z * Z)) k :
+  NoDup (akeys ds) -> (k <= length ds)%nat ->
+  knn_legal ds k (map fst (firstn k (dsort ds))) = true.
+Proof.
+  intros Hnd Hk. pose proof (dsort_perm ds) as Hp. pose proof (dsort_sorted ds) as Hs.
+  assert (Hsplit : dsort ds = firstn k (dsort ds) ++ skipn k (dsort ds)) by (symmetry; apply firstn_skipn).
+  assert (Hkeys : Permutation (akeys ds) (map fst (dsort ds))) by (apply Permutation_map; exact Hp).
+  unfold knn_legal. rewrite !andb_true_iff. repeat split.
+  - apply Nat.eqb_eq. rewrite map_length, firstn_length, <- (Permutation_length Hp). lia.
+  - apply negb_true_iff. apply NoDup_has_dup_false.
+    apply (NoDup_app_l _ (map fst (skipn k (dsort ds)))). rewrite <- map_app, <- Hsplit.
+    apply (Permutation_NoDup Hkeys). exact Hnd.
+  - apply forallb_forall. intros a Ha. apply mem_In.
+    apply (Permutation_in _ (Permutation_sym Hkeys)).
+    rewrite Hsplit, map_app. apply in_or_app. left. exact Ha.
+  - apply forallb_forall. intros a Ha. apply forallb_forall. intros [b d] Hb. cbn [fst snd].
+    apply (Permutation_in _ Hp) in Hb. rewrite Hsplit in Hb. apply in_app_or in Hb.
+    apply orb_true_iff. destruct Hb as [Hb|Hb].
+    + left. apply mem_In. apply in_map_iff. exists (b, d). auto.
+    + right. apply Z.leb_le. apply in_map_iff in Ha. destruct Ha as [[a' da] [Ea Ha]]. cbn [fst] in Ea. subst a'.
+      assert (In (a, da) ds) as Hin.
+      { apply (Permutation_in _ (Permutation_sym Hp)). rewrite Hsplit. apply in_or_app. left. exact Ha. }
+      unfold dist_of. rewrite (proj1 (In_aget ds a da Hnd) Hin).
+      rewrite Hsplit in Hs. exact (sorted_app_le _ _ (a, da) (b, d) Hs Ha Hb).
+Qed.
+
+Theorem exp_knearest_exists c ops q k :
+  let s := e_final c (e_init c) ops in
+  (k <= e_n s)%nat -> exists out, knn_legal (distances c (e_abs s) q) k out = true.
+Proof.
+  cbn zeta. intros Hk. pose proof (exp_reachable_inv c ops) as Hinv.
+  destruct (reachable_abs c ops) as [Hnd _]. cbn zeta in Hnd.
+  eexists. apply knn_exists.
+  - unfold akeys, distances. rewrite map_map. cbn [fst]. exact Hnd.
+  - unfold distances. rewrite map_length, (e_abs_length _ Hinv). exact Hk.
+Qed.
